@@ -507,6 +507,12 @@ class DavSession:
         resp = self.world.request("REPORT", path, [("Content-Type", "text/xml"), ("Depth", "1")], body)
         return self._record({"op": "Query", "c": c}, resp, {"m": "REPORT", "path": path, "uid": uid})
 
+    def reupload(self, c, n):
+        """A client stores again exactly what the server serves for the member."""
+        g = self.world.request("GET", self.slots[c] + "/" + n)
+        if g.status == 200:
+            return self.put(c, n, g.body, re=True)
+
     def expandquery(self, c):
         """calendar-query asking for the expanded form of every event of 2020/2021 (a read)."""
         body = ('<?xml version="1.0" encoding="utf-8"?><C:calendar-query xmlns:C="urn:ietf:params:xml:ns:caldav" '
